@@ -448,6 +448,9 @@ class BasinProxyFeature(np.lib.mixins.NDArrayOperatorsMixin):
                 indices = self.basinmap
             else:
                 indices = self.basinmap[index]
+            if np.any(np.isnan(self.feat_obj.shape[1:])):
+                # ragged feature (e.g. contour), return a list
+                return [self.feat_obj[idx] for idx in indices]
             out_arr = np.empty((len(indices),) + self.feat_obj.shape[1:],
                                dtype=self.feat_obj.dtype)
             for ii, idx in enumerate(indices):
